@@ -18,7 +18,9 @@
 (***************************************************************************)
 EXTENDS Integers, Sequences, FiniteSets, TLC, SequencesExt, FiniteSetsExt, Json
 
-CONSTANTS MaxStreams, LabelIds, UserTree, DoEmit,
+CONSTANTS MaxStreams, LabelIds,
+          UserTree,      \* 0: no user tree (synthesis); 1: Site -> {A -> {A1}, B}; 2: Site -> {A -> {B}, B}
+          DoEmit,
           SuffixMatch,   \* mutant / old defect (fixed by f8b9c6b): a zone also receives streams whose path merely ENDS with the zone's path
           NoPrePass      \* mutant / old defect (fixed by de9c5e0): labelled zones are created lazily, generated O-names can collide
 
@@ -33,11 +35,13 @@ Label(i) ==
     \* labels used with the user tree  Site -> { A -> { A1 }, B }
     [] i = 9 -> <<"A1">>           [] i = 10 -> <<"A", "A1">>    [] i = 11 -> <<"Site", "B">>
     [] i = 12 -> <<"C">>           [] i = 13 -> <<"Site", "A", "A1">>
+    \* additional label for the second user tree  Site -> { A -> { B }, B }  (a zone name used at two depths)
+    [] i = 14 -> <<"Site", "A", "B">>
 Raw(i) ==
   CASE i = 1 -> "A" [] i = 2 -> "A/B" [] i = 3 -> "A/B/C" [] i = 4 -> "A/O1" [] i = 5 -> "B" [] i = 6 -> "B/A"
-    [] i = 7 -> "O1" [] i = 8 -> "Site" [] i = 9 -> "A1" [] i = 10 -> "A/A1" [] i = 11 -> "Site/B" [] i = 12 -> "C" [] i = 13 -> "Site/A/A1"
+    [] i = 7 -> "O1" [] i = 8 -> "Site" [] i = 9 -> "A1" [] i = 10 -> "A/A1" [] i = 11 -> "Site/B" [] i = 12 -> "C" [] i = 13 -> "Site/A/A1" [] i = 14 -> "Site/A/B"
 RawOrder(i) == CASE i = 1 -> 1 [] i = 10 -> 2 [] i = 2 -> 3 [] i = 3 -> 4 [] i = 4 -> 5 [] i = 9 -> 6 [] i = 5 -> 7 [] i = 6 -> 8
-                 [] i = 12 -> 9 [] i = 7 -> 10 [] i = 8 -> 11 [] i = 13 -> 12 [] i = 11 -> 13
+                 [] i = 12 -> 9 [] i = 7 -> 10 [] i = 8 -> 11 [] i = 13 -> 12 [] i = 14 -> 13 [] i = 11 -> 14
 Names == <<"s", "s_2", "s">>        \* stream i is called Names[i]: a duplicate name, and one that looks like a renamed key
 
 S == inp                            \* sequence of [lab, kind]
@@ -58,7 +62,7 @@ Init ==
   /\ phase = "prepass" /\ nodes = {} /\ counter = <<>> /\ assign = <<>> /\ k = 1
 
 PrePass ==
-  /\ phase = "prepass" /\ ~UserTree
+  /\ phase = "prepass" /\ UserTree = 0
   /\ nodes' = IF NoPrePass THEN {} ELSE UNION { PrefixSet(Label(S[i].lab)) : i \in 1..N }
   /\ counter' = [p \in {} |-> 0]
   /\ assign' = [i \in 1..N |-> <<>>]
@@ -84,9 +88,9 @@ MainStep ==
   /\ phase' = IF k = N THEN "done" ELSE "main"
   /\ UNCHANGED inp
 
-(* Branch 2: resolution against the user tree  Site -> { A -> { A1 }, B } *)
+(* Branch 2: resolution against the user tree  Site -> { A -> { A1 }, B }  or  Site -> { A -> { B }, B } *)
 IsNew(p) == Len(p) = 1 /\ p[1] \in { "#new" \o ToString(j) : j \in 1..3 }
-UNodes == { <<"A">>, <<"A", "A1">>, <<"B">> }
+UNodes == IF UserTree = 2 THEN { <<"A">>, <<"A", "B">>, <<"B">> } ELSE { <<"A">>, <<"A", "A1">>, <<"B">> }
 Resolve(i) ==      \* _rewrite_stream_zones_from_tree for stream i; result: the zone path the stream ends up matched to, or <<"?">>
   LET c == Label(S[i].lab)
       full == IF c[1] = "Site" THEN Tail(c) ELSE c          \* canonical "Site/..." or path relative to the root
@@ -94,9 +98,10 @@ Resolve(i) ==      \* _rewrite_stream_zones_from_tree for stream i; result: the 
   IN  IF c = <<"Site">> THEN <<"#new" \o ToString(i)>>          \* root label: a new process zone named after the stream
       ELSE IF c[1] = "Site" /\ Tail(c) \in UNodes THEN Tail(c)
       ELSE IF Cardinality(cands) = 1 THEN (CHOOSE u \in cands : TRUE)
+      ELSE IF c \in UNodes THEN c        \* ambiguous suffix: the label is left as it is and matches the zone whose path below the root it spells
       ELSE <<"?">>
 UserStep ==
-  /\ phase = "prepass" /\ UserTree
+  /\ phase = "prepass" /\ UserTree # 0
   /\ assign' = [i \in 1..N |-> Resolve(i)]
   /\ nodes' = UNodes \cup { Resolve(i) : i \in { j \in 1..N : IsNew(Resolve(j)) } }
   /\ counter' = <<>> /\ k' = N + 1 /\ phase' = "done"
@@ -122,8 +127,8 @@ RootContent == LET cs == SetToSeq({ c \in nodes : Len(c) = 1 }) IN
 (* DEFINITIONAL: conservation *)
 Leaves == { z \in nodes : Children(z) = {} }
 (* known findings with a user tree: a label that names no zone of the tree, or a zone that has children *)
-KFUnknown(i) == UserTree /\ assign[i] = <<"?">>
-KFNonLeaf(i) == UserTree /\ assign[i] \in nodes /\ Children(assign[i]) # {}
+KFUnknown(i) == UserTree # 0 /\ assign[i] = <<"?">>
+KFNonLeaf(i) == UserTree # 0 /\ assign[i] \in nodes /\ Children(assign[i]) # {}
 Carved(i) == KFUnknown(i) \/ KFNonLeaf(i)
 
 Done == phase = "done"
@@ -140,7 +145,7 @@ CaseRec ==
   [ streams |-> [i \in 1..N |-> [label |-> Raw(S[i].lab), name |-> Names[i], kind |-> S[i].kind]],
     userTree |-> UserTree,
     zones |-> [j \in 1..Cardinality(nodes) |-> LET z == SetToSeq(nodes)[j] IN [path |-> z, content |-> Content(z)]],
-    root |-> RootContent,
+    root |-> RootContent, assign |-> assign,
     carved |-> [i \in 1..N |-> Carved(i)], newZone |-> [i \in 1..N |-> IsNew(assign[i])] ]
 EmitCase == (DoEmit /\ Done) => PrintT(<<"CASE", ToJson(CaseRec)>>)
 =============================================================================
